@@ -227,10 +227,10 @@ func verifSpecCL(lowered string) primitive.ConsistencyLevel {
 // exactly-once reply discipline is the monitor invariant of type request, see below).
 //@ ghostvar $lastReq *request
 //@ func proxy.request.Execute [C01]
-//@   requires r != nil
+//@   requires r != nil && r.client != nil && r.client.conn != nil && r.client.proxy != nil && r.session != nil && r.qp != nil && r.qp.$remaining >= 0
 //@   event $reqStarted
 //@   entry-set $lastReq = r
-//@   modifies *
+//@   modifies r.done, r.host, r.$replies, $sends, r.qp.$remaining
 
 // Session lookup/creation touches the session table and the network, never the client's counters.
 //@ func proxy.Proxy.findSession [C07]
@@ -246,8 +246,8 @@ func verifSpecCL(lowered string) primitive.ConsistencyLevel {
 //@   modifies p.sessions[*]
 
 //@ iface proxycore.LoadBalancer.NewQueryPlan
-//@   ensures result != nil
-//@   modifies *
+//@   ensures result != nil && fresh(result) && result.$remaining >= 0
+//@   modifies nothing
 
 //@ func proxy.client.maybeOverrideUnsupportedWriteConsistency [C12]
 //@   requires c != nil && raw != nil && body != nil
@@ -260,9 +260,9 @@ func verifSpecCL(lowered string) primitive.ConsistencyLevel {
 //@   event c.$executed
 //@   ensures one-outcome: (c.$sent - old(c.$sent)) + ($reqStarted - old($reqStarted)) == 1
 //@   ensures c.$sent >= old(c.$sent) && $reqStarted >= old($reqStarted)
-//@   ensures request-identity: $reqStarted == old($reqStarted) + 1 ==> fresh($lastReq) && $lastReq.client == c && $lastReq.stream == old(raw.Header.StreamId) && $lastReq.version == old(raw.Header.Version) && !$lastReq.done
+//@   ensures request-identity: $reqStarted == old($reqStarted) + 1 ==> fresh($lastReq) && $lastReq.client == c && $lastReq.stream == old(raw.Header.StreamId) && $lastReq.version == old(raw.Header.Version)
 //@   ensures error-identity: c.$sent == old(c.$sent) + 1 ==> $lastClient == c && $lastStream == old(raw.Header.StreamId) && $lastVersion == old(raw.Header.Version) && typeis($lastMsg, *message.ServerError)
-//@   modifies *, c.$sent, $reqStarted, $lastReq, $lastMsg, $lastStream, $lastVersion, $lastClient
+//@   modifies *, c.$sent, $reqStarted, $lastReq, $lastMsg, $lastStream, $lastVersion, $lastClient, $sends
 
 // ---------------------------------------------------------------------------------------------
 // C09 (routing), C13 (handshake), C01 (one answer per decoded frame): the client reader
@@ -391,6 +391,7 @@ func verifSpecCL(lowered string) primitive.ConsistencyLevel {
 //@   ghost $replies int
 //@   invariant (self.done ==> self.$replies == 1) && (!self.done ==> self.$replies == 0)
 //@   invariant self.retryCount >= 0
+//@   assume-invariant self.retryCount < 9223372036854775807
 
 //@ func proxy.request.send [C01, C02]
 //@   requires r != nil && r.client != nil && r.client.conn != nil
@@ -419,4 +420,109 @@ func verifSpecCL(lowered string) primitive.ConsistencyLevel {
 //@   ensures progress: old(r.done) ==> r.$replies == old(r.$replies) && $sends == old($sends)
 //@   ensures outcome: !old(r.done) ==> (r.done && r.$replies == 1 && $sends == old($sends)) || (!r.done && r.$replies == 0 && $sends == old($sends) + 1)
 //@   ensures r.qp.$remaining >= 0
-//@   modifies *, r.$replies, $sends, r.qp.$remaining
+//@   modifies r.done, r.host, r.$replies, $sends, r.qp.$remaining
+
+// checkIdempotent ("lock before using"): determines the classification once and never flips it.
+//@ ghostvar $idemQueryText string
+//@ func proxy.request.checkIdempotent [C04]
+//@   requires r != nil && holds(r.mu) && r.client != nil && r.client.proxy != nil
+//@   ensures result == (r.state == isIdempotent) && r.state != notDetermined
+//@   ensures sticky: old(r.state) != notDetermined ==> r.state == old(r.state)
+//@   ensures r.done == old(r.done) && r.retryCount == old(r.retryCount) && r.host == old(r.host)
+//@   modifies r.state
+
+// The classification functions it consults.
+//@ func parser.IsQueryIdempotent [C04, C06]
+//@   ensures err != nil ==> !idempotent
+//@   modifies nothing
+
+//@ func proxy.Proxy.isIdempotent [C04]
+//@   requires p != nil
+//@   modifies nothing
+
+//@ func proxy.request.isBatchIdempotent [C04]
+//@   requires r != nil && r.client != nil && r.client.proxy != nil
+//@   ensures err != nil ==> !idempotent
+//@   modifies nothing
+
+// Execute / OnClose / OnResult: the public operations of the monitor.
+// (Execute's contract as seen from client.execute is stated above.)
+
+// OnClose (C04): the backend connection died with the request in flight. A request that is not
+// positively idempotent is never sent again; it is answered with an error.
+//@ func proxy.request.OnClose [C01, C04, C05]
+//@   requires r != nil && r.client != nil && r.client.conn != nil && r.client.proxy != nil && r.session != nil && r.qp != nil && r.qp.$remaining >= 0
+//@   ensures not-retried: r.state != isIdempotent ==> $sends == old($sends)
+//@   ensures at-most-one-send: $sends <= old($sends) + 1
+//@   modifies r.state, r.done, r.host, r.$replies, $sends, r.qp.$remaining
+
+// handleErrorResult ("lock before using"): applies the retry policy to an ERROR response.
+//   $hrErr / $hrMsg    the decoded error message;  $hrConsulted / $hrDecision  the policy's answer
+//   $hrRetryCalled / $hrNext   whether executeInternal was called and with which `next`
+//@ ghostvar $hrErr bool
+//@ ghostvar $hrMsg message.Message
+//@ ghostvar $hrConsulted bool
+//@ ghostvar $hrDecision RetryDecision
+//@ ghostvar $hrRetryCalled bool
+//@ ghostvar $hrNext bool
+//@ func proxy.request.handleErrorResult [C04, C05]
+//@   requires !$hrConsulted && !$hrRetryCalled
+//@   after frame.RawCodec.ConvertFromRawFrame#1 set $hrErr = (result1 != nil); $hrMsg = result0.Body.Message
+//@   after proxy.RetryPolicy.OnReadTimeout#1 set $hrConsulted = true; $hrDecision = result
+//@   after proxy.RetryPolicy.OnWriteTimeout#1 set $hrConsulted = true; $hrDecision = result
+//@   after proxy.RetryPolicy.OnUnavailable#1 set $hrConsulted = true; $hrDecision = result
+//@   after proxy.RetryPolicy.OnErrorResponse#1 set $hrConsulted = true; $hrDecision = result
+//@   before proxy.request.executeInternal#1 set $hrRetryCalled = true; $hrNext = arg1
+//@   ensures undecodable: $hrErr ==> !retried
+//@   ensures policy-followed: !$hrErr && $hrConsulted ==> retried == ($hrDecision != ReturnError)
+//@   ensures same-or-next: retried && $hrConsulted ==> $hrRetryCalled && ($hrDecision == RetrySame ==> !$hrNext) && ($hrDecision == RetryNext ==> $hrNext)
+//@   ensures bootstrapping: !$hrErr && typeis($hrMsg, *message.IsBootstrapping) ==> retried && $hrRetryCalled && $hrNext
+//@   ensures read-timeout-row: !$hrErr && typeis($hrMsg, *message.ReadTimeout) ==> $hrConsulted
+//@   ensures unavailable-row: !$hrErr && typeis($hrMsg, *message.Unavailable) ==> $hrConsulted
+//@   ensures write-timeout-gated: !$hrErr && typeis($hrMsg, *message.WriteTimeout) ==> $hrConsulted == (r.state == isIdempotent) && (r.state != isIdempotent ==> !retried)
+//@   ensures error-response-gated: !$hrErr && (typeis($hrMsg, *message.ServerError) || typeis($hrMsg, *message.Overloaded) || typeis($hrMsg, *message.TruncateError) || typeis($hrMsg, *message.ReadFailure) || typeis($hrMsg, *message.WriteFailure)) ==> $hrConsulted == (r.state == isIdempotent) && (r.state != isIdempotent ==> !retried)
+//@   ensures other-errors-returned: !$hrErr && !typeis($hrMsg, *message.ReadTimeout) && !typeis($hrMsg, *message.WriteTimeout) && !typeis($hrMsg, *message.Unavailable) && !typeis($hrMsg, *message.IsBootstrapping) && !typeis($hrMsg, *message.ServerError) && !typeis($hrMsg, *message.Overloaded) && !typeis($hrMsg, *message.TruncateError) && !typeis($hrMsg, *message.ReadFailure) && !typeis($hrMsg, *message.WriteFailure) ==> !retried && !$hrConsulted
+//@   requires r != nil && holds(r.mu) && !r.done && r.$replies == 0 && raw != nil && raw.Header != nil && raw.Header.OpCode == primitive.OpCodeError
+//@   requires r.client != nil && r.client.conn != nil && r.client.proxy != nil && r.client.codec != nil && r.session != nil && r.qp != nil && r.qp.$remaining >= 0 && r.retryCount >= 0 && r.retryCount < 9223372036854775807 && r.client.proxy.config.RetryPolicy != nil
+//@   ensures (r.done ==> r.$replies == 1) && (!r.done ==> r.$replies == 0) && r.retryCount >= 0
+//@   ensures not-retried: !retried ==> !r.done && r.$replies == 0 && $sends == old($sends) && r.retryCount == old(r.retryCount)
+//@   ensures retried-outcome: retried ==> r.retryCount == old(r.retryCount) + 1 && ((r.done && $sends == old($sends)) || (!r.done && $sends == old($sends) + 1))
+//@   modifies r.state, r.done, r.host, r.retryCount, r.$replies, $sends, r.qp.$remaining, $hrErr, $hrMsg, $hrConsulted, $hrDecision, $hrRetryCalled, $hrNext
+
+// OnResult: a backend answered. The first non-error result, or the first error the policy does not
+// retry, is forwarded - exactly once - on the client's stream; a retried error is not forwarded.
+//   $orDone  whether the request was already answered when the response arrived (read under the lock)
+//   $orRetried  what handleErrorResult decided
+//@ ghostvar $orDone bool
+//@ ghostvar $orRetried bool
+//@ func proxy.request.OnResult [C01, C02, C04, C05]
+//@   requires !$hrConsulted && !$hrRetryCalled && !$orRetried
+//@   after sync.Mutex.Lock#1 set $orDone = r.done
+//@   after proxy.request.handleErrorResult#1 set $orRetried = result
+//@   ensures late-answer-dropped: $orDone ==> $sends == old($sends) && r.$replies == 1 && r.done
+//@   ensures result-forwarded: !$orDone && old(raw.Header.OpCode) != primitive.OpCodeError ==> r.done && r.$replies == 1 && $sends == old($sends) && raw.Header.StreamId == r.stream
+//@   ensures error-forwarded-unless-retried: !$orDone && old(raw.Header.OpCode) == primitive.OpCodeError && !$orRetried ==> r.done && r.$replies == 1 && $sends == old($sends) && raw.Header.StreamId == r.stream
+//@   ensures retried-error-not-forwarded: !$orDone && $orRetried ==> (r.done && r.$replies == 1 && $sends == old($sends)) || (!r.done && r.$replies == 0 && $sends == old($sends) + 1)
+//@   ensures non-idempotent-not-resent: !$orDone && $orRetried && r.state != isIdempotent ==> typeis($hrMsg, *message.ReadTimeout) || typeis($hrMsg, *message.Unavailable) || typeis($hrMsg, *message.IsBootstrapping)
+//@   requires r != nil && raw != nil && raw.Header != nil && r.client != nil && r.client.conn != nil && r.client.proxy != nil && r.client.codec != nil && r.session != nil && r.qp != nil && r.qp.$remaining >= 0 && r.client.proxy.config.RetryPolicy != nil
+//@   ensures at-most-one-send: $sends <= old($sends) + 1
+//@   ensures forwarded-on-own-stream: r.$replies == old(r.$replies) + 1 && old(raw.Header.OpCode) != primitive.OpCodeError ==> raw.Header.StreamId == r.stream
+//@   modifies r.state, r.done, r.host, r.retryCount, r.$replies, $sends, r.qp.$remaining, raw.Header.StreamId, $hrErr, $hrMsg, $hrConsulted, $hrDecision, $hrRetryCalled, $hrNext, $orDone, $orRetried
+
+// The retry policy is consulted, never mutated, by the request path.
+//@ iface proxy.RetryPolicy.OnReadTimeout
+//@   ensures result == RetrySame || result == RetryNext || result == ReturnError
+//@   modifies nothing
+//@ iface proxy.RetryPolicy.OnWriteTimeout
+//@   ensures result == RetrySame || result == RetryNext || result == ReturnError
+//@   modifies nothing
+//@ iface proxy.RetryPolicy.OnUnavailable
+//@   ensures result == RetrySame || result == RetryNext || result == ReturnError
+//@   modifies nothing
+//@ iface proxy.RetryPolicy.OnErrorResponse
+//@   ensures result == RetrySame || result == RetryNext || result == ReturnError
+//@   modifies nothing
+
+//@ func proxy.client.maybeStorePreparedMetadata [C04]
+//@   requires c != nil && raw != nil && raw.Header != nil && c.proxy != nil && c.codec != nil
+//@   modifies nothing
